@@ -407,6 +407,8 @@ def decorate(rng, desc):
         if rng.random() < 0.35:
             cols[str(u)] = rng.choice(["ff0000", "00ff00", "0000ff", "123abc", "000000"])      # explicit black switches a clade back inside a highlighted subtree
     d["ocolors"] = cols
+    if cols and not d.get("unnamed") and rng.random() < 0.3:
+        d["colorattr"] = True          # the colours are assigned as plain Python attributes instead of NHX features
     return d
 
 
